@@ -206,6 +206,7 @@ FrameRoundTrip == \A ty \in 0..255 : \A n \in SizeClasses :
                     LegalMsg(m) /\ d.ok /\ d.ty = ty /\ d.topic = m.topic /\ d.n = n /\ d.pay = "p" /\ d.consistent /\ d.rest = Bytes(<<9, 9>>)
 FrameOversize  == \A ty \in {0, 1, 2, 255} : \A n \in {Limit + 1, 2147483647} : ~DecFrame(EncFrame(MsgOf(ty, n))).ok
 FrameLaws == FrameRoundTrip /\ FrameOversize
+\* header bytes 2..5 of a frame per payload length (compared with the conformance harness's own codec)
 FrameVectors == [n \in SizeClasses \cup {Limit + 1} |-> LE4(n)]
 
 (* sender node 1 with several goroutines; receivers 2 and 3; one of them may be faulty *)
@@ -231,6 +232,7 @@ ProgsRec(ps) == [g \in DOMAIN ps |-> [k \in DOMAIN ps[g] |-> [id |-> ps[g][k].id
 FInit == /\ fault \in Faults /\ victim \in Recvs /\ progs \in Progs
          /\ Assert(FrameLaws, "frame encoding laws violated")
          /\ PrintT(<<"SCEN", ToJson([fault |-> fault, victim |-> victim, progs |-> ProgsRec(progs)])>>)
+         /\ PrintT(<<"VEC", ToJson(FrameVectors)>>)
          /\ pc = [g \in DOMAIN progs |-> <<1, 1>>]
          /\ q = [d \in Recvs |-> <<>>] /\ started = [d \in Recvs |-> FALSE] /\ link = [d \in Recvs |-> "none"]
          /\ wire = [d \in Recvs |-> <<>>] /\ rcv = [d \in Recvs |-> <<>>]
